@@ -204,4 +204,26 @@ before the append -/
 theorem kept_heads_before_append_tied_to_go_text : Gen.addOperationOrder = Order.addOperation :=
   gen_addOperation_order
 
+/-- a `Load` that fails because the block of one cached head is gone leaves what the OTHER heads led to
+readable: the log of the load over the heads that came back, the view its replay, the cache as it was
+(review of the F32 repair, fix: commit - `Load` returned its error before the view was rebuilt: the log
+held the entries of the other heads, `Get` answered nil; `unreach=fail` reload scenario in the corpus) -/
+theorem failed_load_leaves_what_came_back_readable (acl : Acl) (s t : Store) (fetch : Nat → OMap)
+    (amount : Int) (h : (s.headsBack fetch).load acl fetch amount = .ok t) :
+    (s.loadReadable acl fetch amount).log = t.log ∧
+    (s.loadReadable acl fetch amount).idx = updateIndex s.kind s.idx t.log ∧
+    (s.loadReadable acl fetch amount).localHeads = s.localHeads ∧
+    (s.loadReadable acl fetch amount).remoteHeads = s.remoteHeads :=
+  loadReadable_spec acl s t fetch amount h
+
+/-- non-vacuity: the 4-chain cached under its head plus a second cached head whose block is gone - Load
+fails and the four entries are listed -/
+theorem failed_load_example :
+    let s := LoadExample.fresh 4
+    let fetch := LoadExample.fetchN LoadExample.chain4 (-1)
+    let s2 : Store := { s with remoteHeads := some [99] }
+    LoadExample.listing (s2.loadChecked LoadExample.acl fetch (-1)) = .error .notFound ∧
+    LoadExample.listing (.ok (s2.loadReadable LoadExample.acl fetch (-1))) = .ok [1, 2, 3, 4] :=
+  failed_load_lists_what_came_back
+
 end Orbit.C05
